@@ -89,6 +89,12 @@ func acceptUnits(c *checkCtx, check string) []*interp.Unit {
 			{core, profile{"tmpl K<=3 Lp<=1", map[string]interface{}{"profile": "tmpl", "K": 3, "Lp": 1}}},
 		}
 	}
+	// long command lines over a small alphabet on repetition-heavy specs
+	longSpecs := []string{"(-b | -o) -a [-b] X", "(-a | -b) (-a | -b) X", "(-a X)...", "[-a | -o]... X", "X... Y", "(X Y)...", "[-o]... X...", "[OPTIONS] X...", "[-a] X [-b] Y...", "(X | -o)... Y"}
+	if !c.quick() {
+		longSpecs = append(longSpecs, "X...", "-a...", "[X...] Y", "-a... -b...")
+	}
+	plans = append(plans, plan{longSpecs, profile{fmt.Sprintf("long K<=%d over {positional, flag, valued option}", pick(c, 5, 6)), map[string]interface{}{"profile": "long", "K": pick(c, 5, 6), "Lp": 1}}})
 	var us []*interp.Unit
 	for _, pl := range plans {
 		for _, sp := range pl.specs {
@@ -182,7 +188,7 @@ func endUnits(c *checkCtx) []*interp.Unit {
 	if !c.quick() {
 		k = 4
 	}
-	for _, sp := range []string{"[-a] [-b] X...", "[OPTIONS] X...", "[-a] [-b] -- X...", "[-o] X [Y]..."} {
+	for _, sp := range []string{"[-a] [-b] X...", "[OPTIONS] X...", "[-a] [-b] -- X...", "[-o] X [Y]...", "X... Y", "[-a] [X] Y"} {
 		ps := map[string]interface{}{"spec": sp, "check": "C09", "shared": 0, "profile": "tmplmini", "K": k, "Lp": 1}
 		u := unit(cli, "H_accept", fmt.Sprintf("H_accept[%q verbatim tail, core template K<=%d]", sp, k), ps)
 		u.Samples = 1
@@ -219,9 +225,9 @@ func init() {
 		},
 		Bounds: func(c *checkCtx) map[string]interface{} {
 			if c.quick() {
-				return map[string]interface{}{"specs": "curated + END family + every 48th generated spec (rotated by VERIF_SEED)", "raw": "K<=2 tokens of L<=3 arbitrary bytes", "template": "K<=2 items over 24 documented/malformed shapes, payload <=1 byte", "structural (H_struct)": "every sequence of <=4 spec tokens over 16 kinds that compiles: language equivalence of the compiled graph and the Glushkov automaton of the reference regular expression, proved by k-induction in z3 for label sequences of any length"}
+				return map[string]interface{}{"specs": "curated + END family + every 48th generated spec (rotated by VERIF_SEED)", "raw": "K<=2 tokens of L<=3 arbitrary bytes", "template": "K<=2 items over 24 documented/malformed shapes, payload <=1 byte", "long": "K<=5 items over {positional, short flag, valued option + separate value} on 8 repetition-heavy specs", "structural (H_struct)": "every sequence of <=4 spec tokens over 16 kinds that compiles: language equivalence of the compiled graph and the Glushkov automaton of the reference regular expression, proved by k-induction in z3 for label sequences of any length"}
 			}
-			return map[string]interface{}{"specs": "curated (86) + END family (19); every 2nd of the 1476 generated specs for raw K<=2, every 8th for raw K<=3 and the template", "raw": "K<=2 tokens of L<=4 arbitrary bytes; K<=3 tokens of L<=3 bytes", "template": "K<=2 items over 24 documented/malformed shapes with payload <=2 bytes; K<=3 items (payload 1 byte) on 10 core specs; K<=4 items over the 5 well-formed core shapes on curated + END specs", "structural (H_struct)": "every sequence of <=5 spec tokens over 16 kinds that compiles: language equivalence by k-induction, label sequences of any length"}
+			return map[string]interface{}{"specs": "curated (86) + END family (19); every 2nd of the 1476 generated specs for raw K<=2, every 8th for raw K<=3 and the template", "raw": "K<=2 tokens of L<=4 arbitrary bytes; K<=3 tokens of L<=3 bytes", "template": "K<=2 items over 24 documented/malformed shapes with payload <=2 bytes; K<=3 items (payload 1 byte) on 10 core specs; K<=4 items over the 5 well-formed core shapes on curated + END specs", "long": "K<=6 items over {positional, short flag, valued option + separate value} on 12 repetition-heavy specs", "structural (H_struct)": "every sequence of <=5 spec tokens over 16 kinds that compiles: language equivalence by k-induction, label sequences of any length"}
 		},
 		Assumptions: append([]string{"declaration table: flags -a/--aa -b/--bb, valued -o/--oo -e/--ee (string lists), arguments X Y; no environment variables", "no token equals -h/--help (C14); no folded token with '=' after a flag; inputs of DESIGN.md 4.5 (iv) excluded for specs containing `--`", "flag values written as -a=v convert through strconv.ParseBool modelled as an uninterpreted function shared by implementation and reference"}, commonAssumptions...),
 		Outside:     []string{"command lines longer than K tokens / L bytes", "specs outside the family", "other declaration tables"},
@@ -238,7 +244,18 @@ func init() {
 					lp = 2
 				}
 				u := unit(cli, "H_custom", fmt.Sprintf("H_custom[combo %03b %s IsBoolFlag()=%v Lp<=%d, + positional]", combo, map[int]string{1: "opt", 0: "arg"}[opt], fa == 1, lp),
-					map[string]interface{}{"combo": combo, "opt": opt, "Lp": lp, "envLen": 1, "flagAnswer": fa, "withArg": opt, "group": 0, "fold": 0})
+					map[string]interface{}{"combo": combo, "opt": opt, "Lp": lp, "envLen": 1, "flagAnswer": fa, "withArg": opt, "group": 0, "fold": 0, "short": 0})
+				u.Samples = 2
+				us = append(us, u)
+			}
+			// env-backed options left out of the command line: positional and option values are those
+			// written (value-identity clause of H_envmono), typed options hold the values written (H_prec)
+			us = append(us, specUnits("H_envmono", []string{"[-e] X...", "[OPTIONS] X...", "-e [-a] X"},
+				[]profile{{"tmpl K<=2 Lp<=1, env subsets of {VA,VE}", map[string]interface{}{"profile": "tmpl", "K": 2, "Lp": 1, "envmask": 9, "defEqEnv": 0}}}, 1)...)
+			for _, t := range []int{2, 5} {
+				tn := map[int]string{2: "int", 5: "ints"}[t]
+				u := unit(cli, "H_prec", fmt.Sprintf("H_prec[%s opt, cli<=3B, no env]", tn),
+					map[string]interface{}{"type": t, "opt": 1, "check": "C06", "envLen": 1, "cliLen": 3, "maxEnv": 0, "withArg": 0, "ptr": 0, "sibling": 0, "specEnd": 0})
 				u.Samples = 2
 				us = append(us, u)
 			}
@@ -246,6 +263,7 @@ func init() {
 		},
 		Bounds: func(c *checkCtx) map[string]interface{} {
 			b := props["C01"].Bounds(c)
+			b["typed and env-backed"] = "int / ints options with payloads <=3 bytes (value = strconv's parse of what was written); 3 specs with env-backed options absent from the command line (values identical with and without the variable)"
 			b["custom values"] = "5 shapes of user-defined value types (flag-like answering true / false, multi-valued, plain) as option (+ a positional) or argument: the Set calls are exactly the written values, in order"
 			return b
 		},
@@ -316,7 +334,7 @@ func init() {
 			// command trees: help tokens, `--`, command names and raw tokens under the three policies
 			for _, t := range pickInts(c, []int{1, 6, 8}, []int{1, 2, 3, 4, 5, 6, 7, 8}) {
 				k := pick(c, 3, 4)
-				u := unit(cli, "H_tree_total", fmt.Sprintf("H_tree_total[tree %d, K<=%d L<=1]", t, k), map[string]interface{}{"tree": t, "K": k, "L": 1, "env": 0, "subpol": 0})
+				u := unit(cli, "H_tree_total", fmt.Sprintf("H_tree_total[tree %d, K<=%d L<=1]", t, k), map[string]interface{}{"tree": t, "K": k, "L": 1, "env": 0, "subpol": 0, "named": 0})
 				u.Samples = 2
 				us = append(us, u)
 			}
@@ -377,6 +395,7 @@ func init() {
 				us := specUnits("H_respell", append(core, everyNth(all, 64, c.seed)...), []profile{{"n<=2 Lp<=1", map[string]interface{}{"n": 2, "Lp": 1, "flagsOnly": 0, "names": 0}}}, 1)
 				us = append(us, respellNames(2)...)
 				us = append(us, respellCustom(2)...)
+				us = append(us, specUnits("H_respell", []string{"((-o -b) | (-a -o)) X", "(-b | -e) -a [-b] X"}, []profile{{"n<=3 Lp<=1", map[string]interface{}{"n": 3, "Lp": 1, "flagsOnly": 0}}}, 1)...)
 				return append(us, specUnits("H_respell", []string{"-a... [-b]", "-a... -b", "(-a | -b)...", "[-ab]..."}, []profile{{"flags only n<=4", map[string]interface{}{"n": 4, "Lp": 1, "flagsOnly": 1, "names": 0}}}, 1)...)
 			}
 			us := specUnits("H_respell", append(core, everyNth(all, 6, c.seed)...), []profile{{"n<=2 Lp<=2", map[string]interface{}{"n": 2, "Lp": 2, "flagsOnly": 0, "names": 0}}}, 1)
@@ -404,10 +423,12 @@ func init() {
 				us = append(us, specUnits("H_swap", envSpecs, []profile{{"n<=2 Lp<=1 env subsets", map[string]interface{}{"n": 2, "Lp": 1, "env": 1, "flagsOnly": 0}}}, 1)...)
 				us = append(us, specUnits("H_swap", []string{"[OPTIONS]", "[-ab]", "-a... [-b]", "(-a | -b)..."}, []profile{{"flags only n<=4, env subsets of {VA,VB}", map[string]interface{}{"n": 4, "Lp": 1, "env": 1, "flagsOnly": 1, "envmask": 3}}}, 1)...)
 				us = append(us, specUnits("H_swap", []string{"[-a] [-b]", "[-b] [-o] [-a]", "[OPTIONS]"}, []profile{{"flags are user-defined value types, n<=2 Lp<=1", map[string]interface{}{"n": 2, "Lp": 1, "env": 0, "flagsOnly": 0, "custom": 1}}}, 1)...)
+				us = append(us, specUnits("H_swap", []string{"[-a] [-o] X...", "[-b] [-o] [-a]"}, []profile{{"valued options are user-defined types with IsBoolFlag()=false, n<=2 Lp<=1", map[string]interface{}{"n": 2, "Lp": 1, "env": 0, "flagsOnly": 0, "custom": 2}}}, 1)...)
 				return append(us, specUnits("H_swap", append([]string{"[-a] [-o] [X]", "[-o] [-e] [-a]"}, everyNth(all, 960, c.seed)...), []profile{{"n<=3 Lp<=1", map[string]interface{}{"n": 3, "Lp": 1, "env": 0, "flagsOnly": 0}}}, 1)...)
 			}
 			us := specUnits("H_swap", append(core, everyNth(all, 8, c.seed)...), []profile{{"n<=3 Lp<=1", map[string]interface{}{"n": 3, "Lp": 1, "env": 0, "flagsOnly": 0}}}, 1)
 			us = append(us, specUnits("H_swap", []string{"[OPTIONS]", "[-ab]", "-a... [-b]", "(-a | -b)...", "[-ab]... X"}, []profile{{"flags only n<=5 env subsets", map[string]interface{}{"n": 5, "Lp": 1, "env": 1, "flagsOnly": 1}}}, 1)...)
+			us = append(us, specUnits("H_swap", []string{"[-a] [-o] X...", "[-b] [-o] [-a]"}, []profile{{"valued options are user-defined types with IsBoolFlag()=false, n<=3 Lp<=1", map[string]interface{}{"n": 3, "Lp": 1, "env": 0, "flagsOnly": 0, "custom": 2}}}, 1)...)
 			us = append(us, specUnits("H_swap", []string{"[-a] [-b]", "[-b] [-o] [-a]", "[OPTIONS]", "[-ab] [-o]", "-a [-b] X"}, []profile{{"flags are user-defined value types, n<=3 Lp<=1", map[string]interface{}{"n": 3, "Lp": 1, "env": 0, "flagsOnly": 0, "custom": 1}}}, 1)...)
 			return append(us, specUnits("H_swap", envSpecs, []profile{{"n<=3 Lp<=1 env subsets", map[string]interface{}{"n": 3, "Lp": 1, "env": 1, "flagsOnly": 0}}}, 1)...)
 		},
@@ -427,7 +448,7 @@ func init() {
 				us := specUnits("H_envmono", append(core, append(everyNth(specs, 6, c.seed), everyNth(cur, 40, c.seed)...)...), []profile{{"tmpl K<=2 Lp<=1, env subsets of {VA,VE}", map[string]interface{}{"profile": "tmpl", "K": 2, "Lp": 1, "envmask": 9}}}, 1)
 				us = append(us, specUnits("H_envmono", []string{"-e X", "-a -e", "[OPTIONS] X [OPTIONS]", "-o [-a]"}, []profile{{"raw K<=2 L<=2, declared defaults equal to the environment values", map[string]interface{}{"profile": "raw", "K": 2, "L": 2, "envmask": 15, "defEqEnv": 1}}}, 1)...)
 				us = append(us, specUnits("H_envmono", []string{"[OPTIONS] X [OPTIONS]", "[-ae] X [-ae]"}, []profile{{"core template K<=3 Lp<=1, env subsets of {VA,VE}", map[string]interface{}{"profile": "tmplmini", "K": 3, "Lp": 1, "envmask": 9}}}, 1)...)
-				us = append(us, specUnits("H_envmono", []string{"[OPTIONS]", "[OPTIONS] X", "-ae"}, []profile{{"tmpl K<=2 Lp<=1, all 16 env subsets", map[string]interface{}{"profile": "tmpl", "K": 2, "Lp": 1, "envmask": 15}}}, 1)...)
+				us = append(us, specUnits("H_envmono", []string{"[OPTIONS]", "[OPTIONS] X", "-ae", "-a -o -e X", "-a -b -o -e", "-a -o -- X"}, []profile{{"tmpl K<=2 Lp<=1, all 16 env subsets", map[string]interface{}{"profile": "tmpl", "K": 2, "Lp": 1, "envmask": 15}}}, 1)...)
 				return append(us, requiredEnvUnits(1, 1)...)
 			}
 			specs = append(specs, cur...)
@@ -446,20 +467,30 @@ func init() {
 	treeUnits := func(entry string, trees []int, k, l int, samples int) []*interp.Unit {
 		var us []*interp.Unit
 		for _, t := range trees {
-			u := unit(cli, entry, fmt.Sprintf("%s[tree %d, K<=%d L<=%d]", entry, t, k, l), map[string]interface{}{"tree": t, "K": k, "L": l, "env": 0, "subpol": 0})
+			u := unit(cli, entry, fmt.Sprintf("%s[tree %d, K<=%d L<=%d]", entry, t, k, l), map[string]interface{}{"tree": t, "K": k, "L": l, "env": 0, "subpol": 0, "named": 0})
 			u.Samples = samples
 			us = append(us, u)
 			if t == 1 || t == 2 || t == 4 {
 				// the same with every level's flag backed by an environment variable (set or unset)
-				ue := unit(cli, entry, fmt.Sprintf("%s[tree %d, K<=%d L<=%d, env-backed flags]", entry, t, k, l), map[string]interface{}{"tree": t, "K": k, "L": l, "env": 1, "subpol": 0})
+				ue := unit(cli, entry, fmt.Sprintf("%s[tree %d, K<=%d L<=%d, env-backed flags]", entry, t, k, l), map[string]interface{}{"tree": t, "K": k, "L": l, "env": 1, "subpol": 0, "named": 0})
 				ue.Samples = samples
 				us = append(us, ue)
 			}
 		}
 		return us
 	}
+	// deep trees with longer command lines over a small alphabet (aliases, the flag, a positional, `--`, an undeclared option)
+	namedTreeUnits := func(entry string, trees []int, k int) []*interp.Unit {
+		var us []*interp.Unit
+		for _, t := range trees {
+			u := unit(cli, entry, fmt.Sprintf("%s[tree %d, K<=%d tokens from {aliases, -f, --ff, x, --, -z}]", entry, t, k), map[string]interface{}{"tree": t, "K": k, "L": 1, "env": 0, "subpol": 0, "named": 1})
+			u.Samples = 2
+			us = append(us, u)
+		}
+		return us
+	}
 	allTrees := []int{0, 1, 2, 3, 4, 5, 7, 8, 10}
-	helpTrees := []int{1, 3, 4, 5, 6, 8}
+	helpTrees := []int{1, 3, 4, 5, 6, 8, 11}
 	precUnits := func(c *checkCtx, check string) []*interp.Unit {
 		var us []*interp.Unit
 		for t := 0; t < 7; t++ {
@@ -476,27 +507,41 @@ func init() {
 				role := map[int]string{1: "opt", 0: "arg"}[opt]
 				tn := []string{"bool", "string", "int", "float64", "strings", "ints", "floats64"}[t]
 				u := unit(cli, "H_prec", fmt.Sprintf("H_prec[%s %s env<=%dB x%d cli<=%dB]", tn, role, envLen, maxEnv, cliLen),
-					map[string]interface{}{"type": t, "opt": opt, "check": check, "envLen": envLen, "cliLen": cliLen, "maxEnv": maxEnv, "withArg": 0, "ptr": 0, "sibling": 0})
+					map[string]interface{}{"type": t, "opt": opt, "check": check, "envLen": envLen, "cliLen": cliLen, "maxEnv": maxEnv, "withArg": 0, "ptr": 0, "sibling": 0, "specEnd": 0})
 				u.Samples = 4
 				us = append(us, u)
 				// the XxxPtr flavour of the declaration functions, and a sibling sharing the default data
 				up := unit(cli, "H_prec", fmt.Sprintf("H_prec[%s %s Ptr API, sibling with the same default, env<=1B cli<=1B]", tn, role),
-					map[string]interface{}{"type": t, "opt": opt, "check": check, "envLen": 1, "cliLen": 1, "maxEnv": 1, "withArg": 0, "ptr": 1, "sibling": 1})
+					map[string]interface{}{"type": t, "opt": opt, "check": check, "envLen": 1, "cliLen": 1, "maxEnv": 1, "withArg": 0, "ptr": 1, "sibling": 1, "specEnd": 0})
 				up.Samples = 2
 				us = append(us, up)
+				if opt == 1 && (t == 4 || t == 5 || t == 1) {
+					// the occurrences matched through an option group ([OPTIONS])
+					ug := unit(cli, "H_prec", fmt.Sprintf("H_prec[%s opt through [OPTIONS], cli<=%dB]", tn, cliLen),
+						map[string]interface{}{"type": t, "opt": 1, "check": check, "envLen": 1, "cliLen": cliLen, "maxEnv": 1, "withArg": 0, "ptr": 0, "sibling": 0, "specEnd": 2})
+					ug.Samples = 2
+					us = append(us, ug)
+				}
+				if opt == 0 && (t == 1 || t == 4) {
+					// a spec-level `--` before the argument: a `--` written on the command line after the first one is a value
+					ue := unit(cli, "H_prec", fmt.Sprintf("H_prec[%s arg after a spec-level --, cli<=2B]", tn),
+						map[string]interface{}{"type": t, "opt": 0, "check": check, "envLen": 1, "cliLen": 2, "maxEnv": 1, "withArg": 0, "ptr": 0, "sibling": 0, "specEnd": 1})
+					ue.Samples = 2
+					us = append(us, ue)
+				}
 				if check == "C06" || check == "C13" {
 					// the short declaration functions XxxOpt(name, value, desc) / XxxOptPtr(&v, ...): no
 					// environment, no SetByUser; command line else default
 					for api := 2; api <= 3; api++ {
 						us2 := unit(cli, "H_prec", fmt.Sprintf("H_prec[%s %s short API%s, cli<=1B]", tn, role, map[int]string{2: "", 3: " Ptr"}[api]),
-							map[string]interface{}{"type": t, "opt": opt, "check": check, "envLen": 1, "cliLen": 1, "maxEnv": 0, "withArg": 0, "ptr": api, "sibling": api - 2})
+							map[string]interface{}{"type": t, "opt": opt, "check": check, "envLen": 1, "cliLen": 1, "maxEnv": 0, "withArg": 0, "ptr": api, "sibling": api - 2, "specEnd": 0})
 						us2.Samples = 1
 						us = append(us, us2)
 					}
 				}
 				if opt == 1 && (t == 2 || t == 5 || t == 0) {
 					u2 := unit(cli, "H_prec", fmt.Sprintf("H_prec[%s opt + positional, cli<=%dB]", tn, cliLen),
-						map[string]interface{}{"type": t, "opt": opt, "check": check, "envLen": 1, "cliLen": cliLen, "maxEnv": 0, "withArg": 1, "ptr": 0, "sibling": 0})
+						map[string]interface{}{"type": t, "opt": opt, "check": check, "envLen": 1, "cliLen": cliLen, "maxEnv": 0, "withArg": 1, "ptr": 0, "sibling": 0, "specEnd": 0})
 					u2.Samples = 2
 					us = append(us, u2)
 				}
@@ -513,12 +558,14 @@ func init() {
 		ID: "C04", Level: "model_checking",
 		Units: func(c *checkCtx) []*interp.Unit {
 			if c.quick() {
-				return append(treeUnits("H_route", allTrees, 3, 2, 4), treeUnits("H_route", []int{0, 1, 7, 9}, 2, 3, 4)...)
+				us := append(treeUnits("H_route", allTrees, 3, 2, 4), treeUnits("H_route", []int{0, 1, 7, 9}, 2, 3, 4)...)
+				return append(us, namedTreeUnits("H_route", []int{1, 4}, 4)...)
 			}
-			return append(treeUnits("H_route", allTrees, 6, 2, 4), treeUnits("H_route", allTrees, 4, 3, 4)...)
+			us := append(treeUnits("H_route", allTrees, 6, 2, 4), treeUnits("H_route", allTrees, 4, 3, 4)...)
+			return append(us, namedTreeUnits("H_route", []int{1, 4, 8, 10}, 5)...)
 		},
 		Bounds: func(c *checkCtx) map[string]interface{} {
-			return map[string]interface{}{"trees": "6 command trees (depth<=3, fan-out<=2, 1-3 aliases incl. prefixes of each other, levels with/without parameters, action-less commands, version flag)",
+			return map[string]interface{}{"named": "deep trees (1, 4; thorough also 8, 10) with K<=4/5 tokens drawn from {every alias, -f, --ff, x, --, -z}: the deepest commands get arguments of their own", "trees": "11 command trees (depth<=4, fan-out<=2, 1-3 aliases incl. prefixes of each other, option-like aliases, a name containing a comma, levels with/without parameters, blank specs, own -h options, action-less commands, version flag)",
 				"argv": map[bool]string{true: "raw K<=3 tokens of L<=2 bytes", false: "raw K<=6 L<=2 and K<=4 L<=3"}[c.quick()]}
 		},
 		Assumptions: append([]string{"no help token (C14), no version token; oracle: reference router whose per-level verdicts and bindings come from the real single-level application of that level"}, commonAssumptions...),
@@ -529,13 +576,24 @@ func init() {
 		Units: func(c *checkCtx) []*interp.Unit {
 			conv := precUnits(c, "C07")
 			for _, t := range []int{1, 2, 4} {
-				u := unit(cli, "H_policy", fmt.Sprintf("H_policy[tree %d, K<=3 L<=2, sub-commands configured with ContinueOnError]", t), map[string]interface{}{"tree": t, "K": 3, "L": 2, "env": 0, "subpol": 1})
+				u := unit(cli, "H_policy", fmt.Sprintf("H_policy[tree %d, K<=3 L<=2, sub-commands configured with ContinueOnError]", t), map[string]interface{}{"tree": t, "K": 3, "L": 2, "env": 0, "subpol": 1, "named": 0})
 				u.Samples = 3
 				conv = append(conv, u)
+				ul := unit(cli, "H_policy", fmt.Sprintf("H_policy[tree %d, K<=3 L<=2, root policy assigned after the sub-commands were declared]", t), map[string]interface{}{"tree": t, "K": 3, "L": 2, "env": 0, "subpol": 2, "named": 0})
+				ul.Samples = 2
+				conv = append(conv, ul)
+			}
+			// which invocations are rejected is decided by the reference matcher (C01) on a flat application
+			for _, sp := range []string{"[-a] X", "X", "[-o] X [Y]"} {
+				ua := unit(cli, "H_accept", fmt.Sprintf("H_accept[%q raw K<=2 L<=3] (verdict = reference matcher)", sp), map[string]interface{}{"spec": sp, "check": "C01", "shared": 0, "profile": "raw", "K": 2, "L": 3})
+				ua.Samples = 1
+				conv = append(conv, ua)
 			}
 			if c.quick() {
+				conv = append(conv, namedTreeUnits("H_policy", []int{4}, 4)...)
 				return append(append(treeUnits("H_policy", allTrees, 3, 2, 4), treeUnits("H_policy", []int{0, 1}, 2, 3, 4)...), conv...)
 			}
+			conv = append(conv, namedTreeUnits("H_policy", []int{1, 4, 8}, 5)...)
 			return append(append(treeUnits("H_policy", allTrees, 5, 2, 4), treeUnits("H_policy", allTrees, 4, 3, 4)...), conv...)
 		},
 		Bounds:      func(c *checkCtx) map[string]interface{} { return props["C04"].Bounds(c) },
@@ -571,7 +629,7 @@ func init() {
 			return us
 		},
 		Bounds: func(c *checkCtx) map[string]interface{} {
-			return map[string]interface{}{"depth": map[bool]string{true: "d<=2 (7 hooks)", false: "d<=4 (11 hooks, 4.2M kind vectors)"}[c.quick()], "hooks": "each of the 2d+3 hooks is absent / returns / panics(v) / calls Exit(n): all combinations (case split); n is symbolic (64-bit); v is a symbolic integer, an error value, a string with a symbolic byte or (d<=1) a genuine runtime error raised by the hook (d>=3: symbolic integers only)"}
+			return map[string]interface{}{"depth": map[bool]string{true: "d<=2 (7 hooks)", false: "d<=4 (11 hooks, 4.2M kind vectors)"}[c.quick()], "hooks": "each of the 2d+3 hooks is absent / returns / panics(v) / calls Exit(n): all combinations (case split); n is symbolic (64-bit); v is a symbolic integer, an error value, a string with a symbolic byte or a genuine runtime error raised by the hook (d>=2: symbolic integers only); d<=1: under the three error policies"}
 		},
 		Assumptions: append([]string{"the process-exit function is replaced by a recording stub that does not return (os.Exit never returns)", "oracle: 20-line chain reference (DESIGN D.3)"}, commonAssumptions...),
 		Outside:     []string{"panic(nil)", "hooks calling os.Exit directly", "deeper paths"},
@@ -656,8 +714,8 @@ func init() {
 				}
 			}
 			for pair := 0; pair < 6; pair++ {
-				for withopt := 0; withopt <= 2; withopt++ {
-					if withopt == 2 && pair != 0 && pair != 3 {
+				for withopt := 0; withopt <= 3; withopt++ {
+					if withopt >= 2 && pair != 0 && pair != 3 {
 						continue // the option declared with HideValue: two name pairs
 					}
 					ps := map[string]interface{}{"pair": pair, "withopt": withopt, "profile": "raw", "K": 3, "L": 1}
@@ -685,7 +743,7 @@ func init() {
 			var us []*interp.Unit
 			for _, g := range cfgs {
 				u := unit(cli, "H_helptext", fmt.Sprintf("H_helptext[%d args %d opts %d kids depth %d first %d]", g[0], g[1], g[2], g[3], g[4]),
-					map[string]interface{}{"nargs": g[0], "nopts": g[1], "nkids": g[2], "depth": g[3], "firstopt": g[4], "wordLen": 1, "custom": 0})
+					map[string]interface{}{"nargs": g[0], "nopts": g[1], "nkids": g[2], "depth": g[3], "firstopt": g[4], "wordLen": 1, "custom": 0, "version": 0})
 				u.Samples = 4
 				us = append(us, u)
 			}
@@ -696,7 +754,7 @@ func init() {
 			}
 			for _, g := range cust {
 				u := unit(cli, "H_helptext", fmt.Sprintf("H_helptext[%d args %d opts %d kids depth %d first %d + custom VarOpt and VarArg]", g[0], g[1], g[2], g[3], g[4]),
-					map[string]interface{}{"nargs": g[0], "nopts": g[1], "nkids": g[2], "depth": g[3], "firstopt": g[4], "wordLen": 1, "custom": 1})
+					map[string]interface{}{"nargs": g[0], "nopts": g[1], "nkids": g[2], "depth": g[3], "firstopt": g[4], "wordLen": 1, "custom": 1, "version": 1})
 				u.Samples = 4
 				us = append(us, u)
 			}
@@ -723,13 +781,15 @@ func init() {
 			var us []*interp.Unit
 			for _, x := range pcs {
 				us = append(us, unit(cli, "H_decl", fmt.Sprintf("H_decl[%s optLen<=%d argLen<=%d]", x.pat, x.optLen, x.argLen),
-					map[string]interface{}{"pattern": x.pat, "ndecl": len(x.pat), "optLen": x.optLen, "argLen": x.argLen, "policy": 1}))
+					map[string]interface{}{"pattern": x.pat, "ndecl": len(x.pat), "optLen": x.optLen, "argLen": x.argLen, "policy": 1, "names": 0}))
 			}
+			us = append(us, unit(cli, "H_decl", "H_decl[oo, option names outside ASCII (6 concrete name lists)]", map[string]interface{}{"pattern": "oo", "ndecl": 2, "optLen": 1, "argLen": 1, "policy": 1, "names": 1}))
+			us = append(us, unit(cli, "H_decl", "H_decl[aa argLen<=2, XxxArgPtr with one destination variable]", map[string]interface{}{"pattern": "aa", "ndecl": 2, "optLen": 1, "argLen": 2, "policy": 1, "names": 2}))
 			// the same under the two other error policies (declarations fail fast whatever the policy)
 			for _, pol := range []int{0, 2} {
 				for _, x := range []pc{{"oo", 2, 1}, {"aa", 1, 1}, {"oa", 1, 1}} {
 					us = append(us, unit(cli, "H_decl", fmt.Sprintf("H_decl[%s optLen<=%d argLen<=%d, %s]", x.pat, x.optLen, x.argLen, map[int]string{0: "ContinueOnError", 2: "PanicOnError"}[pol]),
-						map[string]interface{}{"pattern": x.pat, "ndecl": len(x.pat), "optLen": x.optLen, "argLen": x.argLen, "policy": pol}))
+						map[string]interface{}{"pattern": x.pat, "ndecl": len(x.pat), "optLen": x.optLen, "argLen": x.argLen, "policy": pol, "names": 0}))
 				}
 			}
 			return us
@@ -759,24 +819,30 @@ func init() {
 							ulp = 2 // positional payloads of 2 bytes: a further `--` after the first one is a value
 						}
 						u := unit(cli, "H_custom", fmt.Sprintf("H_custom[combo %03b %s IsBoolFlag()=%v Lp<=%d env<=%d]", combo, map[int]string{1: "opt", 0: "arg"}[opt], fa == 1, ulp, el),
-							map[string]interface{}{"combo": combo, "opt": opt, "Lp": ulp, "envLen": el, "flagAnswer": fa, "withArg": 0, "group": 0, "fold": 0})
+							map[string]interface{}{"combo": combo, "opt": opt, "Lp": ulp, "envLen": el, "flagAnswer": fa, "withArg": 0, "group": 0, "fold": 0, "short": 0})
 						u.Samples = 3
 						us = append(us, u)
+						if fa == 1 && (combo == 0 || combo == 6) {
+							us3 := unit(cli, "H_custom", fmt.Sprintf("H_custom[combo %03b %s short API Lp<=%d]", combo, map[int]string{1: "opt", 0: "arg"}[opt], ulp),
+								map[string]interface{}{"combo": combo, "opt": opt, "Lp": ulp, "envLen": 0, "flagAnswer": fa, "withArg": 0, "group": 0, "fold": 0, "short": 1})
+							us3.Samples = 2
+							us = append(us, us3)
+						}
 						if opt == 1 && fa == 1 && combo >= 4 {
 							uf := unit(cli, "H_custom", fmt.Sprintf("H_custom[combo %03b flag folded in front of a valued option -xo<value>, Lp<=%d]", combo, lp),
-								map[string]interface{}{"combo": combo, "opt": opt, "Lp": lp, "envLen": 1, "flagAnswer": fa, "withArg": 0, "group": 0, "fold": 1})
+								map[string]interface{}{"combo": combo, "opt": opt, "Lp": lp, "envLen": 1, "flagAnswer": fa, "withArg": 0, "group": 0, "fold": 1, "short": 0})
 							uf.Samples = 2
 							us = append(us, uf)
 						}
 						if opt == 1 && fa == 1 {
 							ug := unit(cli, "H_custom", fmt.Sprintf("H_custom[combo %03b opt through an option group Lp<=%d env<=%d]", combo, lp, el),
-								map[string]interface{}{"combo": combo, "opt": opt, "Lp": lp, "envLen": el, "flagAnswer": fa, "withArg": 0, "group": 1, "fold": 0})
+								map[string]interface{}{"combo": combo, "opt": opt, "Lp": lp, "envLen": el, "flagAnswer": fa, "withArg": 0, "group": 1, "fold": 0, "short": 0})
 							ug.Samples = 2
 							us = append(us, ug)
 						}
 						if opt == 1 && fa == 1 && (combo == 0 || combo == 2) {
 							u2 := unit(cli, "H_custom", fmt.Sprintf("H_custom[combo %03b opt + positional Lp<=%d]", combo, lp),
-								map[string]interface{}{"combo": combo, "opt": opt, "Lp": lp, "envLen": 1, "flagAnswer": fa, "withArg": 1, "group": 0, "fold": 0})
+								map[string]interface{}{"combo": combo, "opt": opt, "Lp": lp, "envLen": 1, "flagAnswer": fa, "withArg": 1, "group": 0, "fold": 0, "short": 0})
 							u2.Samples = 2
 							us = append(us, u2)
 						}
@@ -798,11 +864,11 @@ func init() {
 			var us []*interp.Unit
 			n := 6
 			for a := 0; a < n; a++ {
-				if c.quick() && a%2 == 1 {
+				if c.quick() && a%2 == 1 && a != 1 {
 					continue
 				}
 				ps := func(mode string, k, l int) map[string]interface{} {
-					return map[string]interface{}{"specA": a, "specB": (a + 1) % n, "mode": mode, "profile": "raw", "K": k, "L": l}
+					return map[string]interface{}{"specA": a, "specB": (a + 1) % n, "mode": mode, "profile": "raw", "K": k, "L": l, "names": 0}
 				}
 				us = append(us, unit(cli, "H_indep", fmt.Sprintf("H_indep[footprint spec %d raw K<=2 L<=2]", a), ps("footprint", 2, 2)))
 				us = append(us, unit(cli, "H_indep", fmt.Sprintf("H_indep[determinism spec %d raw K<=2 L<=2]", a), ps("determinism", 2, 2)))
@@ -813,6 +879,12 @@ func init() {
 				us = append(us, unit(cli, "H_indep", fmt.Sprintf("H_indep[envtime spec %d raw K<=1 L<=2]", a), ps("envtime", 1, 2)))
 				if a == 0 {
 					us = append(us, unit(cli, "H_indep", "H_indep[option and argument bound to one variable, every map order]", ps("sharedvar", 0, 1)))
+				}
+				if a == 1 {
+					// long option names that share a prefix: a token is an option only when it spells a name exactly, whatever the map order
+					pn := ps("determinism", 1, 4)
+					pn["names"] = 2
+					us = append(us, unit(cli, "H_indep", "H_indep[determinism spec 1, long names xa/xab/xo/xe, raw K<=1 L<=4]", pn))
 				}
 			}
 			for _, u := range us {
@@ -858,7 +930,7 @@ func requiredEnvUnits(envLen, cliLen int) []*interp.Unit {
 			tn := []string{"bool", "string", "int", "float64", "strings", "ints", "floats64"}[t]
 			api := map[int]string{0: "struct API", 1: "Ptr API"}[ptr]
 			u := unit(groups["cli"], "H_prec", fmt.Sprintf("H_prec[required %s option, %s, env<=%dB x2 cli<=%dB]", tn, api, envLen, cliLen),
-				map[string]interface{}{"type": t, "opt": 1, "check": "C12", "envLen": envLen, "cliLen": cliLen, "maxEnv": 2, "withArg": 0, "ptr": ptr, "sibling": 0})
+				map[string]interface{}{"type": t, "opt": 1, "check": "C12", "envLen": envLen, "cliLen": cliLen, "maxEnv": 2, "withArg": 0, "ptr": ptr, "sibling": 0, "specEnd": 0})
 			u.Samples = 2
 			us = append(us, u)
 		}
@@ -870,7 +942,7 @@ func requiredEnvUnits(envLen, cliLen int) []*interp.Unit {
 func ddTreeUnits(trees []int, k, l int) []*interp.Unit {
 	var us []*interp.Unit
 	for _, t := range trees {
-		u := unit(groups["cli"], "H_dd_tree", fmt.Sprintf("H_dd_tree[tree %d, K<=%d L<=%d]", t, k, l), map[string]interface{}{"tree": t, "K": k, "L": l, "env": 0, "subpol": 0})
+		u := unit(groups["cli"], "H_dd_tree", fmt.Sprintf("H_dd_tree[tree %d, K<=%d L<=%d]", t, k, l), map[string]interface{}{"tree": t, "K": k, "L": l, "env": 0, "subpol": 0, "named": 0})
 		u.Samples = 2
 		us = append(us, u)
 	}
